@@ -395,11 +395,11 @@ theorem pushEnsureAll_linv {X2 : Id → Prop} (n : Notif α) (l : List Id) (st :
     · exact hk
     · exact absurd hk hne
 
-theorem emit_linv (cfg : Cfg) {X2 : Id → Prop} {st : St α} (n : Notif α) (h : LInvX (fun _ => False) X2 st) :
-    LInvX (fun _ => False) X2 (emit cfg st n) := by
+theorem emit_linv (cfg : Cfg α) {X2 : Id → Prop} {st : St α} (who : Option Id) (n : Notif α)
+    (h : LInvX (fun _ => False) X2 st) : LInvX (fun _ => False) X2 (emit cfg st who n) := by
   unfold emit
   split
-  · exact h.congr rfl rfl rfl rfl rfl rfl rfl (fun _ h => h)
+  · cases who <;> exact h.congr rfl rfl rfl rfl rfl rfl rfl (fun _ h => h)
   · split
     · exact h
     · dsimp only
@@ -414,7 +414,7 @@ theorem emit_linv (cfg : Cfg) {X2 : Id → Prop} {st : St α} (n : Notif α) (h 
           fun _ => h.congr rfl rfl rfl rfl rfl rfl rfl (fun _ h => h)
         exact pushEnsureAll_linv n st.observers _ (h0 _)
 
-theorem subscribeCore_linv (cfg : Cfg) {X2 : Id → Prop} {st : St α} (j : Id) (h : LInvX (fun _ => False) X2 st) :
+theorem subscribeCore_linv (cfg : Cfg α) {X2 : Id → Prop} {st : St α} (j : Id) (h : LInvX (fun _ => False) X2 st) :
     LInvX (fun _ => False) X2 (subscribeCore cfg st j) := by
   unfold subscribeCore
   dsimp only
@@ -433,7 +433,7 @@ theorem subscribeCore_linv (cfg : Cfg) {X2 : Id → Prop} {st : St α} (j : Id) 
   have h3 := ensureActive_linv j h2
   exact (h3.weaken (fun k hk => absurd hk.1 hk.2) (fun _ h => h)).congr rfl rfl rfl rfl rfl rfl rfl (fun _ h => h)
 
-theorem doSub_linv (cfg : Cfg) {X2 : Id → Prop} {st : St α} (who : Option Id) (j : Id) (h : LInvX (fun _ => False) X2 st) :
+theorem doSub_linv (cfg : Cfg α) {X2 : Id → Prop} {st : St α} (who : Option Id) (j : Id) (h : LInvX (fun _ => False) X2 st) :
     LInvX (fun _ => False) X2 (doSub cfg st who j).1 := by
   unfold doSub
   split
@@ -451,7 +451,7 @@ theorem doUnsub_linv {X1 X2 : Id → Prop} {st : St α} (j : Id) (h : LInvX X1 X
   · exact sadDispose_linv j (h.congr rfl rfl rfl rfl rfl rfl rfl (fun _ h => h))
   · exact h
 
-theorem adoDeliver_linv (cfg : Cfg) {X1 X2 : Id → Prop} {st : St α} (i : Id) (n : Notif α) (h : LInvX X1 X2 st) :
+theorem adoDeliver_linv (cfg : Cfg α) {X1 X2 : Id → Prop} {st : St α} (i : Id) (n : Notif α) (h : LInvX X1 X2 st) :
     LInvX X1 X2 (adoDeliver cfg st i n).1 := by
   unfold adoDeliver callback
   dsimp only
@@ -461,7 +461,7 @@ theorem adoDeliver_linv (cfg : Cfg) {X1 X2 : Id → Prop} {st : St α} (i : Id) 
     | exact h.congr rfl rfl rfl rfl rfl rfl rfl (fun _ h => h)
     | exact sadDispose_linv i (h.congr rfl rfl rfl rfl rfl rfl rfl (fun _ h => h))
 
-theorem adoDeliver_agenda (cfg : Cfg) (st : St α) (i : Id) (n : Notif α) : (adoDeliver cfg st i n).1.agenda = st.agenda := by
+theorem adoDeliver_agenda (cfg : Cfg α) (st : St α) (i : Id) (n : Notif α) : (adoDeliver cfg st i n).1.agenda = st.agenda := by
   have hs : ∀ s : St α, (sadDispose s i).agenda = s.agenda := by
     intro s
     unfold sadDispose removableDispose soDispose
@@ -474,7 +474,7 @@ theorem adoDeliver_agenda (cfg : Cfg) (st : St α) (i : Id) (n : Notif α) : (ad
   all_goals first | rfl | exact hs _
 
 /-- `so_i.run`, entered with observer `i` exempt from the second clause (its `run` item was just dequeued). -/
-theorem soRun_linv (cfg : Cfg) {st : St α} (i : Id) (h : LInvX (fun _ => False) (fun k => k = i) st)
+theorem soRun_linv (cfg : Cfg α) {st : St α} (i : Id) (h : LInvX (fun _ => False) (fun k => k = i) st)
     (hag : st.agenda = []) : LInv (soRun cfg st i) := by
   unfold soRun
   split
@@ -530,7 +530,7 @@ theorem soRun_linv (cfg : Cfg) {st : St α} (i : Id) (h : LInvX (fun _ => False)
         · exact Or.inr (Or.inr (Or.inl h'))
         · rw [hag2] at h'; exact absurd h' (by simp)
 
-theorem doTask_linv (cfg : Cfg) {st : St α} (t : Task) (ts : List Task) (h : LInv st) (hag : st.agenda = t :: ts) :
+theorem doTask_linv (cfg : Cfg α) {st : St α} (t : Task α) (ts : List (Task α)) (h : LInv st) (hag : st.agenda = t :: ts) :
     LInv (doTask cfg { st with agenda := ts } t) := by
   -- popping a task that is not `resched k` keeps every clause
   have hpop : (∀ k, t ≠ .resched k) → LInv { st with agenda := ts } := by
@@ -548,6 +548,12 @@ theorem doTask_linv (cfg : Cfg) {st : St α} (t : Task) (ts : List Task) (h : LI
   cases t with
   | act who a =>
     have h0 := hpop (by intro k; simp)
+    cases a with
+    | emit n =>
+      simp only [doTask]
+      refine emit_linv cfg who n ?_
+      cases who <;> exact h0.congr rfl rfl rfl rfl rfl rfl rfl (fun _ h => h)
+    | base a =>
     cases a with
     | sub j =>
       have := doSub_linv cfg who j h0
@@ -571,17 +577,17 @@ theorem doTask_linv (cfg : Cfg) {st : St α} (t : Task) (ts : List Task) (h : LI
         · exact Or.inr (Or.inr (Or.inr h'))
     exact (scheduleRun_linv i h0).weaken (fun _ h => h) (fun k hk => absurd hk.1 hk.2)
 
-theorem doCall_linv (cfg : Cfg) {st : St α} (k : Nat) (c : Call α) (h : LInv st) (hag : st.agenda = []) :
+theorem doCall_linv (cfg : Cfg α) {st : St α} (k : Nat) (c : Call α) (h : LInv st) (hag : st.agenda = []) :
     LInv (doCall cfg st k c) := by
-  have h2 : LInv { st with curCall := k, evs := st.evs ++ [EvR.call k st.clock st.observers.length] } :=
+  have h2 : LInv { st with curCall := k, evs := st.evs ++ [EvR.call k st.clock st.observers.length c] } :=
     h.congr rfl rfl rfl rfl rfl rfl rfl (fun _ h => h)
-  have hnone : ∀ (ag : List Task), LInv { st with curCall := k, evs := st.evs ++ [EvR.call k st.clock st.observers.length], agenda := ag } :=
+  have hnone : ∀ (ag : List (Task α)), LInv { st with curCall := k, evs := st.evs ++ [EvR.call k st.clock st.observers.length c], agenda := ag } :=
     fun ag => h.congr rfl rfl rfl rfl rfl rfl rfl (fun i hi => by rw [hag] at hi; exact absurd hi (by simp))
   unfold doCall
   cases c with
-  | next v => exact emit_linv cfg _ h2
-  | error e => exact emit_linv cfg _ h2
-  | completed => exact emit_linv cfg _ h2
+  | next v => exact emit_linv cfg none _ h2
+  | error e => exact emit_linv cfg none _ h2
+  | completed => exact emit_linv cfg none _ h2
   | sub i => exact hnone _
   | unsub i => exact hnone _
   | dispose => exact hnone _
@@ -596,7 +602,7 @@ theorem advance_lframe (st : St α) (due : Nat) :
   all_goals simp
 
 /-- **Every step preserves the liveness invariant.** -/
-theorem step_linv (cfg : Cfg) {st : St α} (h : LInv st) : LInv (step cfg st) := by
+theorem step_linv (cfg : Cfg α) {st : St α} (h : LInv st) : LInv (step cfg st) := by
   unfold step
   split
   · exact h
@@ -675,7 +681,7 @@ theorem schedule_go_linv (cs : List (Nat × Call α)) (k : Nat) (st : St α) (h 
       · simp
       · exact Nat.lt_succ_of_lt (h.l4 it hit)
 
-theorem reach_linv {cfg : Cfg} {calls : List (Nat × Call α)} {st : St α} (h : Reach cfg calls st) : LInv st := by
+theorem reach_linv {cfg : Cfg α} {calls : List (Nat × Call α)} {st : St α} (h : Reach cfg calls st) : LInv st := by
   induction h with
   | init =>
     refine (schedule_go_linv calls 0 {} ?_ (fun _ => rfl)).1
@@ -685,7 +691,7 @@ theorem reach_linv {cfg : Cfg} {calls : List (Nat × Call α)} {st : St α} (h :
 /-- **Quiescence.**  When `start()` has returned normally (nothing left to run, no exception escaped),
 every ScheduledObserver that has not been disposed has an empty queue: everything queued for it has
 been handed to its AutoDetachObserver, in order, exactly once. -/
-theorem quiescent_drained {cfg : Cfg} {calls : List (Nat × Call α)} {st : St α} (h : Reach cfg calls st)
+theorem quiescent_drained {cfg : Cfg α} {calls : List (Nat × Call α)} {st : St α} (h : Reach cfg calls st)
     (hidle : st.agenda = [] ∧ st.pending = []) (hc : st.crashed = none) (i : Id) (hd : st.serDisposed i = false) :
     st.soQueue i = [] ∧ st.fed i = st.enq i := by
   have hL := reach_linv h
